@@ -27,6 +27,7 @@ func init() {
 		pure.Register("C20", "e2e-faults-"+wl.Name, func(c *pure.Ctx) { exploreFaults(c, wl) })
 	}
 	pure.Register("C04", "e2e-crash-restart", exploreCrashes)
+	pure.Register("C04", "e2e-crash-restart-after-delete", exploreCrashesAfterDelete)
 }
 
 func kindsFor(call string) []sim.FaultKind {
@@ -182,7 +183,16 @@ func min(a, b int) int {
 // exploreCrashes (C04 end to end): a crash at every API call of the fault-free run; after restart and
 // quiescence every schedule time later than the lastScheduled persisted at the crash has its Job, none twice.
 func exploreCrashes(c *pure.Ctx) {
-	wl := Workload{Name: "crash-restart", Policy: "Allow", PodSeconds: 10, TTL: 3600, HorizonS: 200}
+	exploreCrashesOf(c, Workload{Name: "crash-restart", Policy: "Allow", PodSeconds: 10, TTL: 3600, HorizonS: 200})
+}
+
+// exploreCrashesAfterDelete: the user deletes the newest scheduled Job (an older one remains)
+// between two schedule times; a restart afterwards must not request its schedule time again.
+func exploreCrashesAfterDelete(c *pure.Ctx) {
+	exploreCrashesOf(c, Workload{Name: "crash-restart-after-delete", Policy: "Allow", PodSeconds: 10, TTL: 3600, HorizonS: 200, DeleteNewestAt: 130})
+}
+
+func exploreCrashesOf(c *pure.Ctx, wl Workload) {
 	states := map[string]bool{}
 	base := newRun(wl, nil, states)
 	_, ok := base.Execute()
